@@ -1,5 +1,430 @@
-"""Verus units: verbatim extraction + annotation splicing + single-file verus run. (filled in below)"""
+"""Verus units: verbatim extraction of real functions + annotation splicing + single-file `verus` run.
+
+Unit template = contracts/verus/<unit>.rs : ordinary Verus text, in which blocks
+
+    //@extract file=<repo path> [impl=<Impl header substring>] fn=<name> [id=<obligation suffix>] [ret=<name>] [pub=no]
+    //@spec
+        requires ... ensures ...            (spliced between the signature and the body)
+    //@loop <ordinal>
+        invariant ... decreases ...         (spliced between the n-th loop header and its `{`)
+    //@ghost after="<verbatim substring of a body line>" [nth=<k>]
+        proof { ... }                       (ghost-only text inserted after that line; never executable code)
+    //@ghost before="..."                  (same, before)
+    //@end
+
+are replaced by the function's text taken byte-for-byte from /repo, after the mechanical rules R-* of DESIGN.md 2.3.
+Everything the extraction changes is recorded in the evidence (`extraction` list) together with a hash of the original body.
+"""
+import os, re, glob, json, shlex, subprocess, time
+from common import *
+import rustlex as L
+import scratch as S
+
+
+class VUnit:
+    def __init__(self, path):
+        self.path = path
+        self.uid = None
+        self.title = ""
+        self.props = []
+        self.tier = "quick"
+        self.profile = "rel"
+        self.assumes = []
+        self.text = read(path)
+        for ln in self.text.split("\n"):
+            if ln.startswith("//@unit "):
+                self.uid, _, self.title = [s.strip() for s in ln[len("//@unit "):].partition(":")]
+            elif ln.startswith("//@props "):
+                self.props = [p for p in ln.split()[1].split(",") if p]
+            elif ln.startswith("//@tier "):
+                self.tier = ln.split()[1]
+            elif ln.startswith("//@profile "):
+                self.profile = ln.split()[1]
+            elif ln.startswith("//@assume "):
+                self.assumes.append(ln[len("//@assume "):].strip())
+
+
 def load_units():
-    return []
-def run_unit(vu, scratch, prop):
-    return []
+    return [VUnit(p) for p in sorted(glob.glob(os.path.join(CONTRACTS, "verus", "*.rs")))]
+
+
+# ---------------------------------------------------------------- extraction
+
+def extract_fn(repo_file, fn, impl=None):
+    """returns (signature_text, body_text_with_braces, start_line) verbatim from the real source"""
+    path = os.path.join(REPO, repo_file)
+    if not os.path.exists(path):
+        raise Undecided("lost anchor: %s does not exist" % repo_file)
+    src = read(path)
+    lines = src.split("\n")
+    li = S.find_fn_line(lines, fn, impl, repo_file)
+    off = sum(len(l) + 1 for l in lines[:li])
+    mask = L.code_mask(src)
+    try:
+        b = L.find_body_open(src, mask, off)
+        e = L.match_close(src, mask, b)
+    except ValueError as ex:
+        raise Undecided("cannot delimit fn %s in %s: %s" % (fn, repo_file, ex))
+    return src[off:b], src[b:e + 1], li + 1
+
+
+def strip_macro_calls(body, name, replace):
+    """replace every `name!( ... )` [optionally followed by `;`] using replace(args_text, had_semicolon) -> text"""
+    out = []
+    i = 0
+    mask = L.code_mask(body)
+    pat = re.compile(r"\b%s!\s*([(\[{])" % re.escape(name))
+    while True:
+        m = pat.search(body, i)
+        if not m:
+            out.append(body[i:])
+            break
+        if not mask[m.start()]:
+            out.append(body[i:m.end()])
+            i = m.end()
+            continue
+        o = m.end() - 1
+        c = L.match_close(body, mask, o)
+        args = body[o + 1:c]
+        j = c + 1
+        semi = False
+        k = j
+        while k < len(body) and body[k] in " \t":
+            k += 1
+        if k < len(body) and body[k] == ";":
+            semi = True
+            j = k + 1
+        out.append(body[i:m.start()])
+        out.append(replace(args, semi))
+        i = j
+    return "".join(out)
+
+
+def apply_rules(body, profile, log_rules):
+    def rm(args, semi):
+        log_rules.add("R-mac0 vprintln! removed")
+        return ""
+    body = strip_macro_calls(body, "vprintln", rm)
+
+    def as_assert(args, semi):
+        cond = L.split_top_commas(args)[0].strip()
+        log_rules.add("R-assert assert!(c, ..) -> assert(c) (panic site becomes a proof obligation)")
+        return "assert(%s)%s" % (cond, ";" if semi else "")
+    body = strip_macro_calls(body, "assert", as_assert)
+
+    def as_assert_eq(args, semi):
+        a = L.split_top_commas(args)
+        log_rules.add("R-assert assert_eq!(a, b, ..) -> assert(a == b)")
+        return "assert((%s) == (%s))%s" % (a[0].strip(), a[1].strip(), ";" if semi else "")
+    body = strip_macro_calls(body, "assert_eq", as_assert_eq)
+
+    def dbg(args, semi):
+        if profile == "dbg":
+            cond = L.split_top_commas(args)[0].strip()
+            log_rules.add("R-assert debug_assert!(c) -> assert(c) (dbg profile)")
+            return "assert(%s)%s" % (cond, ";" if semi else "")
+        log_rules.add("R-assert debug_assert!(..) removed (rel profile: compiled out in release builds)")
+        return ""
+    body = strip_macro_calls(body, "debug_assert", dbg)
+
+    def dbg_eq(args, semi):
+        if profile == "dbg":
+            a = L.split_top_commas(args)
+            return "assert((%s) == (%s))%s" % (a[0].strip(), a[1].strip(), ";" if semi else "")
+        log_rules.add("R-assert debug_assert_eq!(..) removed (rel profile)")
+        return ""
+    body = strip_macro_calls(body, "debug_assert_eq", dbg_eq)
+
+    def pan(args, semi):
+        log_rules.add("R-panic panic!/unreachable!/unimplemented! -> vpanic() (requires false)")
+        return "vpanic()%s" % (";" if semi else "")
+    for mname in ("panic", "unreachable", "unimplemented"):
+        body = strip_macro_calls(body, mname, pan)
+    return body
+
+
+def splice(sig, body, spec, loops, ghosts, ret, make_pub, rules):
+    # signature: name the return value (Verus needs it to be mentioned in `ensures`)
+    sig2 = sig.rstrip()
+    m = re.search(r"->\s*(.+)$", sig2, re.S)
+    if m and ret:
+        rty = m.group(1).strip()
+        where = ""
+        wm = re.search(r"\bwhere\b", rty)
+        if wm:
+            where = " " + rty[wm.start():]
+            rty = rty[:wm.start()].strip()
+        sig2 = sig2[:m.start()] + "-> (%s: %s)%s" % (ret, rty, where)
+        rules.add("R-ret return value named in the signature")
+    if make_pub and not re.match(r"\s*pub\b", sig2):
+        sig2 = re.sub(r"^(\s*)", r"\1pub ", sig2, count=1)
+        rules.add("R-vis extracted fn made pub")
+    # loops, ghosts: operate on body text
+    mask = L.code_mask(body)
+    inserts = []  # (index, text)
+    if loops:
+        found = L.find_loops(body, mask)
+        for (ordinal, text) in loops:
+            if ordinal < 1 or ordinal > len(found):
+                raise Undecided("lost anchor: loop #%d not found (function has %d loops)" % (ordinal, len(found)))
+            inserts.append((found[ordinal - 1][1], "\n" + text.rstrip("\n") + "\n"))
+        if len(found) != max(o for o, _ in loops) and any(o > len(found) for o, _ in loops):
+            raise Undecided("loop count changed")
+    for (where, needle, nth, text) in ghosts:
+        if where == "at":
+            if needle == "end":
+                # before a trailing expression there is no safe spot; `end` means: after the last statement (body must end with `;` or `}`)
+                e = body.rstrip().rfind("}")
+                inserts.append((e, text.rstrip("\n") + "\n"))
+            elif needle == "start":
+                inserts.append((body.find("{") + 1, "\n" + text.rstrip("\n")))
+            else:
+                raise Undecided("bad ghost position %r" % needle)
+            continue
+        idxs = [mm.start() for mm in re.finditer(re.escape(needle), body)]
+        if len(idxs) < nth:
+            raise Undecided("lost anchor: ghost anchor %r (occurrence %d) not found" % (needle, nth))
+        at = idxs[nth - 1]
+        if where == "after":
+            e = body.find("\n", at)
+            e = len(body) if e < 0 else e
+            inserts.append((e, "\n" + text.rstrip("\n")))
+        else:
+            s = body.rfind("\n", 0, at)
+            inserts.append((s + 1, text.rstrip("\n") + "\n"))
+    for (idx, text) in sorted(inserts, key=lambda t: -t[0]):
+        body = body[:idx] + text + body[idx:]
+    spec_txt = ("\n" + spec.rstrip("\n") + "\n") if spec.strip() else "\n"
+    return sig2 + spec_txt + body
+
+
+def render(vu):
+    """returns (generated_text, fn_ranges [(first_line, last_line, obligation_id, kind)], extraction_log)"""
+    lines = vu.text.split("\n")
+    out = []
+    ranges = []
+    exlog = []
+    i = 0
+    while i < len(lines):
+        ln = lines[i]
+        if ln.startswith("//@extract "):
+            kv = dict(tok.split("=", 1) for tok in shlex.split(ln)[1:])
+            spec, loops, ghosts = "", [], []
+            cur, cur_meta = None, None
+            buf = []
+            i += 1
+
+            def flush():
+                nonlocal spec
+                t = "\n".join(buf)
+                if cur == "spec":
+                    spec = t
+                elif cur == "loop":
+                    loops.append((cur_meta, t))
+                elif cur == "ghost":
+                    ghosts.append(cur_meta + (t,))
+            while not lines[i].startswith("//@end"):
+                l2 = lines[i]
+                if l2.startswith("//@spec"):
+                    flush(); buf = []; cur = "spec"
+                elif l2.startswith("//@loop "):
+                    flush(); buf = []; cur = "loop"; cur_meta = int(l2.split()[1])
+                elif l2.startswith("//@ghost "):
+                    flush(); buf = []; cur = "ghost"
+                    g = dict(tok.split("=", 1) for tok in shlex.split(l2)[1:])
+                    where = "after" if "after" in g else ("before" if "before" in g else "at")
+                    cur_meta = (where, g[where], int(g.get("nth", "1")))
+                else:
+                    buf.append(l2)
+                i += 1
+            flush()
+            sig, body, line = extract_fn(kv["file"], kv["fn"], kv.get("impl"))
+            rules = set()
+            body2 = apply_rules(body, vu.profile, rules)
+            for (a, b) in [tuple(r.split("=>", 1)) for r in kv.get("rewrite", "").split("||") if "=>" in r]:
+                if a not in body2:
+                    raise Undecided("lost anchor: rewrite source %r not found in %s" % (a, kv["fn"]))
+                body2 = body2.replace(a, b)
+                rules.add("R-rewrite %r -> %r" % (a, b))
+            text = splice(sig, body2, spec, loops, ghosts, kv.get("ret", "r"), kv.get("pub", "yes") == "yes", rules)
+            first = len(out) + 1
+            out.extend(text.split("\n"))
+            last = len(out)
+            oid = "%s.%s" % (vu.uid, kv.get("id", kv["fn"]))
+            ranges.append((first, last, oid, "extracted", (kv.get("impl", "") + "::" if kv.get("impl") else "") + kv["fn"]))
+            exlog.append({"fn": kv["fn"], "file": kv["file"], "line": line, "body_sha": sha(body), "rules": sorted(rules)})
+        elif ln.startswith("//@struct-check "):
+            kv = dict(tok.split("=", 1) for tok in shlex.split(ln)[1:])
+            check_struct(kv["file"], kv["name"], [f.strip() for f in kv["fields"].split(";") if f.strip()])
+            exlog.append({"struct": kv["name"], "file": kv["file"], "fields_checked": kv["fields"]})
+        elif ln.startswith("//@const-check "):
+            kv = dict(tok.split("=", 1) for tok in shlex.split(ln)[1:])
+            src = read(os.path.join(REPO, kv["file"]))
+            if kv["text"] not in src:
+                raise Undecided("lost anchor: %r not found in %s" % (kv["text"], kv["file"]))
+            exlog.append({"const": kv["text"], "file": kv["file"]})
+        elif ln.startswith("//@"):
+            pass
+        else:
+            out.append(ln)
+        i += 1
+    text = "\n".join(out)
+    # lemma / helper proof fns in the template are obligations too
+    for mm in re.finditer(r"^\s*(?:pub\s+)?(?:broadcast\s+)?proof\s+fn\s+(\w+)", text, re.M):
+        first = text.count("\n", 0, mm.start()) + 1
+        mask = L.code_mask(text)
+        try:
+            b = L.find_body_open(text, mask, mm.end())
+            e = L.match_close(text, mask, b)
+            last = text.count("\n", 0, e) + 1
+        except ValueError:
+            continue
+        ranges.append((first, last, "%s.%s" % (vu.uid, mm.group(1)), "lemma", mm.group(1)))
+    return text, ranges, exlog
+
+
+def check_struct(repo_file, name, fields):
+    src = read(os.path.join(REPO, repo_file))
+    m = re.search(r"\bstruct\s+%s\b[^{;]*\{" % re.escape(name), src)
+    if not m:
+        raise Undecided("lost anchor: struct %s not found in %s" % (name, repo_file))
+    mask = L.code_mask(src)
+    e = L.match_close(src, mask, m.end() - 1)
+    body = src[m.end():e]
+    for f in fields:
+        fname, _, fty = [x.strip() for x in f.partition(":")]
+        if not re.search(r"\b%s\s*:\s*%s\s*," % (re.escape(fname), re.escape(fty)), body):
+            raise Undecided("struct %s: field `%s` no longer declared as in the Verus unit" % (name, f))
+
+
+# ---------------------------------------------------------------- running
+
+ERR_KINDS = [
+    ("postcondition not satisfied", "postcondition"),
+    ("precondition not satisfied", "precondition"),
+    ("assertion failed", "assertion"),
+    ("possible arithmetic underflow/overflow", "overflow"),
+    ("possible division by zero", "div0"),
+    ("invariant not satisfied", "invariant"),
+    ("decreases not satisfied", "decreases"),
+    ("possible bit shift underflow/overflow", "shift"),
+    ("failed this postcondition", "postcondition"),
+    ("unable to prove", "assertion"),
+]
+
+
+def run_verus_file(path, rlimit=None, timeout=900):
+    cmd = ["verus", path, "--output-json", "--time", "--num-threads", str(min(NCPU, 8))]
+    if rlimit:
+        cmd += ["--rlimit", str(rlimit)]
+    t0 = time.time()
+    try:
+        p = subprocess.run(cmd, stdout=subprocess.PIPE, stderr=subprocess.PIPE, text=True, timeout=timeout,
+                           cwd=os.path.dirname(path))
+    except subprocess.TimeoutExpired:
+        return None, "", "timeout", time.time() - t0
+    js = None
+    try:
+        js = json.loads(p.stdout[p.stdout.index("{"):])
+    except Exception:
+        js = None
+    return js, p.stdout, p.stderr, time.time() - t0
+
+
+def parse_errors(stderr, fname):
+    """[(kind, line, message)] for verification errors; second list = hard (compile/VIR) errors"""
+    verr, hard = [], []
+    blocks = re.split(r"\n(?=error|warning|note: )", "\n" + stderr)
+    for b in blocks:
+        b = b.strip("\n")
+        if not b.startswith("error"):
+            continue
+        head = b.split("\n")[0]
+        if head.startswith("error: aborting due to") or "verification results::" in head:
+            continue
+        locs = re.findall(r"--> [^\n:]*%s:(\d+):(\d+)" % re.escape(os.path.basename(fname)), b)
+        locs += re.findall(r"::: [^\n:]*%s:(\d+):(\d+)" % re.escape(os.path.basename(fname)), b)
+        kind = None
+        for (needle, k) in ERR_KINDS:
+            if needle in head:
+                kind = k
+                break
+        if "rlimit" in b.lower() or "resource limit" in b.lower():
+            kind = "rlimit"
+        line = int(locs[0][0]) if locs else 0
+        alll = [int(l) for l, _ in locs]
+        if kind:
+            verr.append((kind, line, alll, b[:1500]))
+        else:
+            hard.append(b[:1500])
+    return verr, hard
+
+
+def run_unit(vu, scratch_dir, prop):
+    t0 = time.time()
+    res = []
+
+    def mk(oid, kind, fn, status, **kw):
+        d = {"id": oid, "unit": vu.uid, "harness": oid, "kind": "verus", "declared_kind": kind, "backend": "verus/z3", "fn": fn,
+             "status": status, "complete": True, "bound": "", "profile": vu.profile, "features": "default", "witness": "",
+             "assumptions": ["[%s] %s" % (vu.uid, a) for a in vu.assumes]}
+        d.update(kw)
+        return d
+    try:
+        text, ranges, exlog = render(vu)
+    except Undecided as e:
+        return [mk(vu.uid + ".*", "extracted", "", "undecided", reason=str(e))]
+    os.makedirs(scratch_dir, exist_ok=True)
+    path = os.path.join(scratch_dir, "%s.rs" % vu.uid.lower())
+    write(path, text)
+    gen_dir = os.path.join(EVIDENCE, "generated")
+    os.makedirs(gen_dir, exist_ok=True)
+    write(os.path.join(gen_dir, "%s.rs" % vu.uid.lower()), text)
+    js, out, err, wall = run_verus_file(path)
+    if err == "timeout":
+        return [mk(r[2], r[3], r[4], "undecided", reason="verus timeout") for r in ranges]
+    verr, hard = parse_errors(err, path)
+    if any(k == "rlimit" for k, _, _, _ in verr):
+        js, out, err, wall2 = run_verus_file(path, rlimit=60)
+        wall += wall2
+        verr, hard = parse_errors(err, path)
+    vr = (js or {}).get("verification-results", {})
+    if js is None or hard or vr.get("encountered-vir-error") or (not verr and not vr.get("success")):
+        why = (hard[0] if hard else err[-1500:]) or "verus produced no result"
+        return [mk(r[2], r[3], r[4], "undecided", reason="verus could not process the unit: " + why) for r in ranges]
+    n_verified = vr.get("verified", 0)
+    # attribute errors to functions
+    bad = {}
+    for (kind, line, alll, msg) in verr:
+        owner = None
+        for cand in [line] + alll:
+            for (a, b, oid, k, fn) in ranges:
+                if a <= cand <= b:
+                    owner = oid
+                    break
+            if owner:
+                break
+        bad.setdefault(owner or (vu.uid + ".<template>"), []).append((kind, line, msg))
+    smt = (js.get("times-ms", {}) or {}).get("smt", {}).get("total", 0) / 1000.0 if js else 0
+    for (a, b, oid, k, fn) in ranges:
+        if oid in bad:
+            kinds = bad[oid]
+            if all(kk == "rlimit" for kk, _, _ in kinds):
+                res.append(mk(oid, k, fn, "undecided", reason="rlimit exceeded (solver instability, not a refutation)"))
+            else:
+                kk, line, msg = [x for x in kinds if x[0] != "rlimit"][0]
+                gl = text.split("\n")[line - 1].strip() if 0 < line <= len(text.split("\n")) else ""
+                res.append(mk(oid, k, fn, "violation", checks=1, time_s=round(wall, 2), has_input=False,
+                              reason="Verus: %s at generated line %d: `%s`" % (kk, line, gl[:160]), verifier_output=msg))
+        else:
+            res.append(mk(oid, k, fn, "discharged", checks=1, time_s=round(wall / max(1, len(ranges)), 2)))
+    if (vu.uid + ".<template>") in bad:
+        kk, line, msg = bad[vu.uid + ".<template>"][0]
+        res.append(mk(vu.uid + ".<template>", "lemma", "", "undecided", reason="verification error outside any tracked function: " + msg[:400]))
+    # vacuity guard: verus must have verified at least as many items as we track
+    if not bad and n_verified < len(ranges):
+        res.append(mk(vu.uid + ".<count>", "lemma", "", "undecided", reason="verus verified %d items, expected >= %d" % (n_verified, len(ranges))))
+    for r in res:
+        r["extraction"] = exlog
+        r["verus_verified_items"] = n_verified
+    return res
